@@ -31,8 +31,10 @@ PROFILES = {
     "types": dict(p_multitype=0.45, p_box=0.3, w_struct=7, w_enum=2, w_alias=2, p_include=0.2, p_keywords=0.35,
                   p_position=0.3, w_extern=1, nrules=(3, 8)),
     "unicode": dict(p_unicode=0.7, p_insens=0.2, w_char=3, w_string=3, p_ccheck=0.3, w_extern=1, p_position=0.4),
-    "memo": dict(p_memo=0.5, p_lookahead=0.2, nrules=(3, 7)),
-    "memofail": dict(p_memo=1.0, p_probe=1.0, p_lookahead=0.15, w_extern=0, nrules=(3, 6)),
+    "memo": dict(p_memo=0.5, p_lookahead=0.2, nrules=(3, 7), p_check=0.3, p_ccheck=0.2, w_extern=1, w_char=2),
+    "memofail": dict(p_memo=1.0, p_probe=0.7, p_lookahead=0.15, w_extern=1, nrules=(3, 6), p_check=0.35, p_ccheck=0.2, w_char=2),
+    "dupfields": dict(nrules=(2, 4), depth=4, small_fieldpool=3, p_multitype=0.85, w_struct=8, w_string=3, w_unit=0, w_alias=0,
+                      w_enum=0, w_char=1, p_include=0.15, p_lookahead=0.03, p_noskip=0.1, dense_fields=True),
     "leftrec": dict(leftrec=1.0, p_memo=0.1, p_position=0.3),
     "ws": dict(p_noskip=0.5, p_user_ws=0.35, p_include=0.25, w_string=3, p_position=0.3),
     "position": dict(p_position=0.8, p_unicode=0.3, w_string=3, w_enum=2, p_memo=0.15, leftrec=0.15),
@@ -132,6 +134,8 @@ class Gen:
         self.noskip[names[0]] = self.coin(p["p_noskip"] * 0.5)
         self.positioned = {nm: self.coin(p["p_position"]) for nm in names}
         self.fieldpool = list(FIELD_NAMES)
+        if p.get("small_fieldpool"):
+            self.fieldpool = self.r.sample(FIELD_NAMES[:8], p["small_fieldpool"])
         if p["p_keywords"] > 0:
             # `impl` as a *field* name is outside the quantifier: a multi-type field `impl` of rule R makes the
             # generated enum `R_impl` collide with the generated module `R_impl` (a generated item, cf. C03)
@@ -299,7 +303,7 @@ class Gen:
 
     def ref(self, mode, consumed):
         """a rule / field reference"""
-        want_field = mode == "named" and self.coin(0.7)
+        want_field = mode == "named" and self.coin(0.95 if self.p.get("dense_fields") else 0.7)
         if self.coin(0.12):
             tgt = "char"
         else:
@@ -355,6 +359,12 @@ class Gen:
         x = r.random()
         if depth <= 0:
             x = x * 0.55
+        if p.get("dense_fields") and mode == "named":
+            y = r.random()
+            if y < 0.45:
+                return self.ref(mode, consumed)
+            if y < 0.65 and depth > 0:
+                return Grp(self.cho(depth - 1, mode, consumed))
         if x < 0.25:
             return self.lit()
         if x < 0.32:
@@ -510,6 +520,18 @@ class Gen:
             base = Seq([Neg(Ref("LRec")), Ref("LAtom", "r")]) if self.coin(0.5) else Seq([Ref("LAtom", "r"), Neg(Lit(ops[0] + ops[0]))])
             rules.append(Rule("LRec", Cho([rec, base]), ["leftrec"] + d_pos()))
             entry = "LRec"
+        if self.coin(0.35):
+            # base alternatives that can match the empty string (the seed may be an empty match that still grows)
+            for ru in rules:
+                if "leftrec" in ru.directives:
+                    for alt in ru.body.alts:
+                        s0 = set()
+                        left_calls(alt, Grammar(rules), {x.name: False for x in rules}, s0)
+                        if not (s0 & {"LRec", "LTerm", "LAdd", "LSub", "LMul"}) and len(alt.parts) == 1 and isinstance(alt.parts[0], Ref) and alt.parts[0].rule == "LAtom":
+                            ref = alt.parts[0]
+                            if ref.field == "@":
+                                continue  # an override must stay exactly-once
+                            alt.parts[0] = Opt(Cho([Seq([ref])])) if self.coin(0.6) else Clo(Cho([Seq([ref])]))
         if self.coin(0.3):
             for ru in rules:
                 if ru.name != "LAtom" and "no_skip_ws" not in ru.directives:
